@@ -83,19 +83,19 @@ def completion_refers_to_current_setup(life, o0, o1, o2, o3, o4):
 
 
 def run(rec):
-    rec.assume("LibRDEngine is driven as a state machine against a reference stand-in for the CDLL (finishes after `life` iterations); ALL sequences of 5 wrapper calls over {setup, iterate, iterate_n, run, sample, finalize+setup} are enumerated exhaustively")
+    rec.assume("LibRDEngine is driven as a state machine against a reference stand-in for the CDLL (finishes after `life` iterations); ALL sequences of 4 wrapper calls (+ a final sample) over {setup, iterate, iterate_n, run, sample, finalize+setup} are enumerated exhaustively")
     rec.encoded("LibRDEngine.setup/iterate/iterate_n/run/sample/is_complete/finalize")
     text = HARNESS + '''
 
-def h_is_complete(life: int, o0: int, o1: int, o2: int, o3: int, o4: int) -> bool:
+def h_is_complete(life: int, o0: int, o1: int, o2: int, o3: int) -> bool:
     """
-    pre: 1 <= life <= 3 and 0 <= o0 <= 5 and 0 <= o1 <= 5 and 0 <= o2 <= 5 and 0 <= o3 <= 5 and 0 <= o4 <= 5
+    pre: 1 <= life <= 3 and 0 <= o0 <= 5 and 0 <= o1 <= 5 and 0 <= o2 <= 5 and 0 <= o3 <= 5
     post: _
     """
-    return completion_refers_to_current_setup(life, o0, o1, o2, o3, o4)
+    return completion_refers_to_current_setup(life, o0, o1, o2, o3, 4)
 '''
     mod = pysym.write_module("hgen_C10", text)
-    pysym.run_auto(rec, mod, [{"fn": "h_is_complete", "what": "the completion status reported by an engine object always refers to its current set-up (every sequence of 5 wrapper calls, stand-in library finishing after 1..3 iterations)",
+    pysym.run_auto(rec, mod, [{"fn": "h_is_complete", "what": "the completion status reported by an engine object always refers to its current set-up (every sequence of 4 wrapper calls, stand-in library finishing after 1..3 iterations)",
                                "sig": "c10-is-complete-stale", "structure": "LibRDEngine", "viol": "is_complete() reports the status of a previous set-up"}])
     two_objects(rec)
 
